@@ -684,6 +684,9 @@ func unitLevel(run *evid.Run) {
 }
 
 func main() {
+	if evid.IsWorker() {
+		wireWorker()
+	}
 	debug.SetGCPercent(800) // tiny live heap, allocation-heavy library calls: fewer collections
 	if f := os.Getenv("C10_PPROF"); f != "" {
 		fh, _ := os.Create(f)
@@ -696,7 +699,8 @@ func main() {
 	}
 	unitLevel(run)
 
-	// wire-level part is added here
+	// wire-level part: real Server + raw peer + real Client on the in-memory network (wire.go)
+	wireLevel(run)
 
 	pprof.StopCPUProfile()
 	run.Finish()
